@@ -498,7 +498,7 @@ def rule_classes(idx):
                   and ck[0].startswith("src/linters/"))
 
 
-@custom("c08-check-frames", props=["C08", "C07", "C10"])
+@custom("c08-check-frames", props=["C08", "C07", "C10", "C11"])
 def check_frames(ctx):
     idx = Index(ctx["repo"])
     fa = FrameAnalysis(idx)
